@@ -69,6 +69,12 @@ def gen(rng):
 
 
 def build_and_eval(cfg):
+    L, P, batch = build(cfg)
+    tot, terms = L.evaluate(P, batch)
+    return float(terms["boundary_loss"])
+
+
+def build(cfg):
     jax, jnp, np, eqx, jinns = jx()
     from jinns.parameters import Params
     from jinns.data._Batchs import PDEStatioBatch, PDENonStatioBatch
@@ -109,8 +115,7 @@ def build_and_eval(cfg):
     else:
         L = jinns.loss.LossPDENonStatio(u=u, dynamic_loss=None, params=P, loss_weights=jinns.loss.LossWeightsPDENonStatio(boundary_loss=cfg["w"]), **kw)
         batch = PDENonStatioBatch(times_x_inside_batch=jnp.zeros((1, dim + 1)), times_x_border_batch=arr)
-    tot, terms = L.evaluate(P, batch)
-    return float(terms["boundary_loss"])
+    return L, P, batch
 
 
 def generator_batch_case(rng):
